@@ -127,6 +127,73 @@ def explore_calls(chunk):
     return agg
 
 
+# syntactic forms (shared with C13) that are allowed to change an operand
+MUTATING_FORMS = {
+    "idx assign", "member assign", "self append", "self put",
+    "mutate in for", "mutate in for keys", "remove in for",
+    "mutate in comprehension",
+}
+
+
+def explore_forms(chunk):
+    """every syntactic form of the C13 catalogue x pool^holes with the
+    operands snapshotted before and after: reading constructs (operators,
+    indexing, slicing, iteration, destructuring, spread, comprehension,
+    literals) never modify their operands"""
+    from mc.props import c13
+    agg = core.Agg()
+    s = sess()
+    c13._S.setdefault("s", s)
+    c13._S.setdefault("forms", {})
+    names = [n for n, _ in sweep.POOL]
+    for fname, first, tier in chunk:
+        src, holes = c13.FORMS2[fname]
+        if fname in MUTATING_FORMS or "=" in fname.split()[-1] and \
+                fname.split()[0] in ("idx", "member", "var"):
+            continue
+        pool3 = names if tier == "thorough" else sweep.SUBPOOL
+        if holes == 1:
+            tuples = [(first,)]
+        elif holes == 2:
+            tuples = [(first, b) for b in names]
+        else:
+            if first not in pool3:
+                continue
+            tuples = [(first, b, c) for b in pool3 for c in pool3]
+        for t in tuples:
+            args = [sweep.POOL[sweep.POOL_INDEX[a]][1](s) for a in t]
+            if any(isinstance(a, (core.ckl.values.ValueInput,
+                                  core.ckl.values.ValueOutput))
+                   for a in args):
+                continue
+            before = [snapshot(a) for a in args]
+            env = s.env.newEnv()
+            for nm, v in zip("xyz", args):
+                env.put(nm, v)
+            s.session._bind_streams()
+            node = c13.form_node(fname)
+            core.set_fuel(30000, 30000)
+            core.arm(10.0)
+            try:
+                core.outcome_raw(lambda: node.evaluate(env))
+            finally:
+                core.disarm()
+                core.set_fuel(10 ** 12, 10 ** 12)
+            agg.count("steps")
+            after = [snapshot(a) for a in args]
+            agg.cls(("form", fname))
+            for k, (b, a) in enumerate(zip(before, after)):
+                if b != a:
+                    agg.violation(
+                        {"what": "operand-modified-by-form",
+                         "form": fname, "arg": k},
+                        {"kind": "form", "form": fname, "src": src,
+                         "args": list(t)}, b, a,
+                        size=len(t) * 100 + sum(len(x) for x in t))
+        agg.count("cases")
+    return agg
+
+
 def call_with(s, fn, args):
     env = s.env.newEnv()
     env.put("f", fn)
@@ -484,6 +551,14 @@ def explore_alias(chunk):
 
 
 def replay(case, verbose=False):
+    if case["kind"] == "form":
+        a = explore_forms([(case["form"], case["args"][0], "thorough")])
+        hit = [v for k, (sz, v) in a.viol.items()
+               if v["case"]["args"] == case["args"]]
+        if verbose:
+            for v in hit:
+                print(v)
+        return bool(hit)
     if case["kind"] == "call":
         s = sess()
         fn = dict(s.funcs)[case["callee"]]
@@ -527,6 +602,10 @@ def main(tier, seed):
             for a in names:
                 call_tasks.append((fname, a, tier))
     agg = core.pmap(explore_calls, core.chunked(call_tasks, core.NPROC * 6))
+    from mc.props import c13
+    form_tasks = [(f, a, tier) for f in c13.FORMS2 for a in names]
+    agg.merge(core.pmap(explore_forms,
+                        core.chunked(form_tasks, core.NPROC * 4)))
     jobs = []
     if tier == "quick":
         plans = [(OPNAMES, 2), (CORE_OPS, 3)]
@@ -540,7 +619,9 @@ def main(tier, seed):
         PID, tier, seed, agg, t0,
         rule=(f"(a) {len(s.funcs)} functions x all argument tuples of arity "
               f"<= 3 from a {len(sweep.POOL)}-value pool with before/after "
-              f"snapshots of every argument; (b) alias graph with "
+              f"snapshots of every argument, and every non-assigning "
+              f"syntactic form of the C13 catalogue x pool^holes with "
+              f"snapshots of the operands; (b) alias graph with "
               f"{len(HANDLES)} handles: all sequences of length <= "
               f"{plans[0][1]} over {len(OPNAMES)} operations and of length "
               f"<= {plans[1][1]} over {len(CORE_OPS)} core operations, one "
